@@ -901,7 +901,323 @@ def run_setname(case):
 
 
 
+# ---- added after seeded round 6: the parent setter one call at a time, against Model/PathMove.lean ------
+SP_NAMES = ["a", "ab", "b", "probe"]
+SP_TYPES = ["t", "T", "stim", "stim/white", "n.s."]
+
+
+def setparent_case(rng, j=0):
+    """Two child lists of Sections (holders: a Section / the Document / a Section of a second Document /
+    a nested Section) over few names and several types, so that a namesake of the SAME and of ANOTHER
+    type is met often; then 1-4 calls `x.parent = the other holder` (x = entry i of either list), or
+    `x.parent = x` / `= a child of x`. Every call is one request to the model (`setParent`): the two
+    child lists as (name, type) before -> raised or not, the two lists afterwards, the holder x names."""
+    kind = ["sibs", "doc", "twodocs", "nested", "sibs", "self"][j % 6]
+    lists = []
+    for _side in range(2):
+        names = rng.sample(SP_NAMES, rng.choice([0, 1, 2, 2, 3]))
+        lists.append([[n, rng.choice(SP_TYPES), rng.random() < 0.4] for n in names])   # [name, type, has a child]
+    if not lists[0] and not lists[1]:
+        lists[0] = [["a", "t", True]]
+    calls = []
+    for _ in range(rng.choice([1, 2, 2, 3, 4])):
+        calls.append([rng.randrange(0, 2), rng.randrange(0, 3),
+                      rng.choice(["x", "child"]) if kind == "self" and rng.random() < 0.6 else "other"])
+    return {"stream": "setparent", "kind": kind, "lists": lists, "calls": calls}
+
+
+def run_setparent(case):
+    import odml
+    doc, doc2 = odml.Document(), odml.Document()
+    kind = case["kind"]
+    try:
+        if kind == "doc":
+            holders = [odml.Section(name="ha", type="t", parent=doc), doc]
+        elif kind == "twodocs":
+            holders = [odml.Section(name="ha", type="t", parent=doc), rng_free_holder(odml, doc2)]
+        elif kind == "nested":
+            ha = odml.Section(name="ha", type="t", parent=doc)
+            holders = [ha, odml.Section(name="hb", type="t", parent=odml.Section(name="mid", type="t", parent=ha))]
+        else:
+            holders = [odml.Section(name="ha", type="t", parent=doc), odml.Section(name="hb", type="t", parent=doc)]
+        objs = []
+        for side, entries in enumerate(case["lists"]):
+            for name, typ, child in entries:
+                if kind == "nested" and side == 0 and name == "mid":
+                    continue
+                sec = odml.Section(name=name, type=typ, parent=holders[side])
+                objs.append(sec)
+                objs.append(odml.Property(name="p", values=[len(objs)], parent=sec))
+                if child:
+                    objs.append(odml.Section(name="k", type=typ, parent=sec))
+    except Exception as exc:
+        return {"skipped": "the child lists could not be built: " + fw.exc_name(exc)}
+    view = lambda h: [[x.name, x.type] for x in h.sections]
+    calls = []
+    for side, i, target in case["calls"]:
+        src = holders[side]
+        if len(src.sections) == 0:
+            continue
+        i = i % len(src.sections)
+        x = src.sections[i]
+        dst = holders[1 - side] if target == "other" else x if target == "x" or len(x.sections) == 0 else x.sections[0]
+        node, below = dst, False
+        for _ in range(50):
+            if node is None:
+                break
+            if node is x:
+                below = True
+            node = getattr(node, "parent", None)
+        rec = {"old": view(src), "new": view(dst), "i": i, "below": below}
+        try:
+            x.parent = dst
+            rec["raised"] = False
+        except Exception as exc:
+            rec["raised"] = True
+        rec["after"] = {"raised": rec["raised"], "old": view(src), "new": view(dst),
+                        "par": "old" if x.parent is src else "new" if x.parent is dst else "other"}
+        if src is dst:
+            rec["skip"] = True                # (cannot happen: the holders differ, x is not its own holder)
+        calls.append(rec)
+    # independent of the model: every object is still of a Document, found by its path and by the traversal
+    lost = []
+    for k, obj in enumerate(objs):
+        node = obj
+        for _ in range(50):
+            if node is None or node is doc or node is doc2:
+                break
+            node = node.parent
+        if node is None:
+            lost.append([k, "is of no Document any more"])
+            continue
+        is_sec = hasattr(obj, "sections")
+        try:
+            path = obj.get_path()
+            got = node.get_section_by_path(path) if is_sec else node.get_property_by_path(path)
+        except Exception as exc:
+            path, got = "?", exc
+        if got is not obj:
+            lost.append([k, "its path %r does not lead back to it" % (path,)])
+            continue
+        n = sum(1 for y in (node.itersections() if is_sec else node.iterproperties()) if y is obj)
+        if n != 1:
+            lost.append([k, "the traversal from its Document yields it %d times" % n])
+    return {"calls": calls, "lost": lost[:3], "n": len(objs)}
+
+
+def rng_free_holder(odml, doc2):
+    return odml.Section(name="hb", type="t", parent=doc2)
+
+
 # ----------------------------------------------------------------------------- positions
+# ---- added after seeded round 6 ------------------------------------------------------------------------
+REFUSE_RELS = ["type", "equal", "typecase", "subtype", "content", "supertype", "values", "empty", "sameid",
+               "type+sameid", "deftype"]
+REFUSE_HOWS = ["parent", "append", "insert", "extend", "extend2", "setitem", "ctor", "create", "clone", "rename",
+               "insertf", "parent"]
+MISUSES = ["prop_parent_doc", "prop_parent_prop", "sec_parent_prop", "sec_parent_str", "doc_append_prop",
+           "doc_insert_prop", "append_int", "append_str", "append_list", "extend_mixed", "extend_mixed_first",
+           "extend_int", "extend_twice", "setitem_prop_in_sections", "setitem_sec_in_properties", "setitem_by_name",
+           "remove_absent", "remove_absent_prop", "remove_int", "reorder_far", "insert_no_index", "prop_append_doc_child"]
+
+
+def refuse_case(rng, uid, j=0):
+    """
+    Stream hist, sub-stream "refuse" (added after seeded round 6): calls the library has to REFUSE, one at
+    a time, with the object the call clashes with varied along every attribute, and the state judged right
+    after the refusal (refused_check, `mid`), before a later edit can repair it.
+      * a Section x (with Sections and Properties below it) is asked into a holder that already has a
+        Section of the SAME NAME which is: equal to x / of another type / of a type that differs by case
+        only / a sub- or super-type / of the same type with other content / with one other value / empty /
+        carrying the same id; by parent =, append, insert, extend (alone, or together with an object that
+        would be accepted, in both orders), sections[i] = x at the index of another member (refused) or of
+        the namesake (a replacement), a constructor with parent=, create_section, a clone; a member of the
+        holder is renamed to the name; a float index;
+      * the holder is a Section below the Document, a nested Section, the Document itself, the namesake's
+        own parent while x sits below the namesake; x comes from the same Document or from the second one;
+      * the same for a Property and a Property of the same name (equal / other values / empty / same id);
+      * a Section is asked below itself, its child, its grandchild;
+      * calls with an argument of the wrong kind (a Property for a Document, a Property as a parent, ints,
+        strings, lists; a list in which one entry is of the wrong kind; removing what is not there).
+    Whatever the library answers (most of these end in an exception, a few are carried out), afterwards
+    every object that was of the Document before is found by its path and by the traversals.
+    """
+    import copy
+    group = ["sec", "sec", "prop", "sec", "cycle", "sec", "misuse", "prop"][j % 8]
+    jj = j // 8
+    types = ["stim", "t", "stim/white", "a/b", "T"]
+    pool = NAMES + ["abcd", "c", "a b", u"\xe9"]
+    name = rng.choice(pool)
+    others = [n for n in pool if n != name]
+
+    def props(k):
+        out = []
+        for pn in rng.sample(PROP_NAMES + ["q"], k):
+            uid[0] += 1
+            out.append({"n": pn, "v": rng.choice([[uid[0]], [uid[0], -3], [uid[0], -9, -9]])})
+        return out
+    t1 = rng.choice(types)
+    x = {"n": name, "t": t1, "p": props(rng.choice([1, 1, 2])),
+         "s": decorate(rng.choice(forests(rng.choice([0, 1, 1, 2]))), rng, uid, types)}
+    rel = REFUSE_RELS[jj % len(REFUSE_RELS)]
+    c = copy.deepcopy(x)
+    if rel in ("type", "type+sameid"):
+        c["t"] = rng.choice([t for t in types if t.lower() != t1.lower()])
+    elif rel == "typecase":
+        c["t"] = t1.swapcase()
+    elif rel == "subtype":
+        c["t"] = t1 + "/x"
+    elif rel == "supertype":
+        c["t"] = t1.split("/")[0] if "/" in t1 else "x/" + t1
+    elif rel == "deftype":
+        c["t"] = "n.s."
+    elif rel == "content":
+        c["p"] = props(rng.choice([0, 1, 2]))
+        c["s"] = decorate(rng.choice(forests(rng.choice([0, 1, 2]))), rng, uid, types)
+    elif rel == "values":
+        c["p"][0]["v"] = c["p"][0]["v"] + [-7]
+    elif rel == "empty":
+        c["p"], c["s"] = [], []
+    if rel in ("sameid", "type+sameid"):
+        x["i"] = c["i"] = 71
+    sib = lambda names: decorate(tuple((n, rng.choice(forests(rng.choice([0, 0, 1])))) for n in names), rng, uid, types)
+    h2names = rng.sample(others, 3)
+    h1names = [n for n in others if n not in h2names]
+    n_sib2 = rng.choice([1, 1, 2])
+    h2kids = sib(h2names[:n_sib2])
+    ci = rng.randrange(0, len(h2kids) + 1)
+    h2kids.insert(ci, c)
+    h1kids = sib(h1names[:rng.choice([1, 1, 2])])      # h1kids[0]: an object the holder of c would accept
+    xi = rng.randrange(0, len(h1kids) + 1)
+    h1kids.insert(xi, x)
+    lay = ["sibs", "nested", "doc", "below", "other", "sibs", "deep"][(jj // len(REFUSE_RELS)) % 7]
+    if group in ("prop", "misuse") and lay in ("doc", "other"):
+        lay = "sibs"
+    H1 = {"n": rng.choice(pool), "t": rng.choice(types), "p": props(rng.choice([0, 1])), "s": h1kids}
+    H2 = {"n": rng.choice([n for n in pool if n != H1["n"]]), "t": rng.choice(types), "p": [], "s": h2kids}
+    other = decorate(rng.choice(forests(rng.randrange(0, 3))), rng, uid, types[:3])
+    if lay == "sibs":
+        main = [H1, H2] if rng.random() < 0.5 else [H2, H1]
+    elif lay == "nested":
+        main = [{"n": rng.choice(pool), "t": "t", "p": props(1), "s": [H1, H2]}]
+    elif lay == "deep":
+        # x sits deep below the holder of its namesake (it is asked upwards)
+        h2kids[(ci + 1) % len(h2kids)]["s"].append(H1)
+        if any(k["n"] == H1["n"] for k in h2kids[(ci + 1) % len(h2kids)]["s"][:-1]):
+            h2kids[(ci + 1) % len(h2kids)]["s"] = [H1]
+        main = [H2]
+    elif lay == "doc":
+        # the Document holds the namesake
+        H1["n"] = rng.choice([n for n in pool if n not in [k["n"] for k in h2kids]])
+        main = list(h2kids)
+        main.insert(rng.randrange(0, len(main) + 1), H1)
+        H2 = None
+    elif lay == "below":
+        # x sits below its namesake and is asked into the holder of the namesake
+        c["s"] = [k for k in c["s"] if k["n"] != name] + [x]
+        h1kids, xi = c["s"], len(c["s"]) - 1
+        H1 = c
+        main = [H2]
+    else:
+        # x comes from the second Document
+        other = [k for k in h1kids]
+        H1 = None
+        main = [H2] + sib([n for n in h1names[2:3] if n != H2["n"]])
+    doc = {"s": main, "o": other}
+    counter = [0]
+    number_nodes(doc["s"], counter)
+    number_nodes(doc["o"], counter)
+    X, C = {"u": x["u"]}, {"u": c["u"]}
+    TO = {"u": H2["u"]} if H2 is not None else {"u": 0}
+    holder2 = H2["s"] if H2 is not None else main
+    ci = [n for n, k in enumerate(holder2) if k is c][0]
+    how = REFUSE_HOWS[(jj + jj // len(REFUSE_HOWS)) % len(REFUSE_HOWS)]
+    free_y = [k for k in (h1kids if lay != "other" else other) if k is not x and k["n"] not in [q["n"] for q in holder2]]
+    ops = warm_round(rng, 0.5, 0.3)
+
+    def main_op():
+        if group == "sec":
+            if how in ("parent", "append", "insert", "extend"):
+                return {"op": "move", "x": X, "to": TO, "how": how, "i": rng.choice([0, 1, -1, ci, 7])}
+            if how == "insertf":
+                return {"op": "move", "x": X, "to": TO, "how": "insert", "i": rng.choice([1.0, 0.0, None, "0"])}
+            if how == "extend2":
+                if not free_y:
+                    return {"op": "move", "x": X, "to": TO, "how": "extend", "i": 0, "y": X}
+                return {"op": "move", "x": X, "to": TO, "how": "extend", "i": rng.choice([0, 1]),
+                        "y": {"u": rng.choice(free_y)["u"]}}
+            if how == "setitem":
+                return {"op": "move", "x": X, "to": TO, "how": "setitem", "rawi": True,
+                        "i": rng.choice(list(range(-len(holder2), len(holder2))) + [ci, len(holder2)])}
+            if how in ("ctor", "create"):
+                counter[0] += 1
+                return {"op": "new", "to": TO, "name": name, "type": t1, "how": how, "i": 0, "u": counter[0]}
+            if how == "clone":
+                counter[0] += 1
+                return {"op": "clone", "x": X, "keep_id": rng.random() < 0.5, "children": rng.random() < 0.8,
+                        "name": None, "to": TO, "how": rng.choice(["append", "insert", "extend", "parent", "setitem"]),
+                        "i": rng.choice([0, 1, -1]), "u": counter[0]}
+            if how == "rename":
+                mates = [k for k in holder2 if k is not c]
+                return {"op": "rename", "x": {"u": rng.choice(mates)["u"]} if mates else X,
+                        "name": rng.choice([name, {"nameof": C}])}
+        if group == "prop":
+            # a Property of x is asked into the namesake of x, which has (rel equal / values / sameid ...) a
+            # Property of that name already - or has not (rel empty / content: carried out)
+            S1, S2 = X, C
+            k = rng.randrange(0, len(x["p"]))
+            ph = ["parent", "append", "insert", "extend", "setitem", "ctor", "create", "prename", "extend2"][jj % 9]
+            if ph in ("parent", "append", "insert", "extend"):
+                return {"op": "pmove", "x": S1, "k": k, "to": S2, "how": ph, "i": rng.choice([0, 1, -1, 1.0])}
+            if ph == "extend2":
+                # a Section the namesake would accept and the Property it may not, in one call
+                if not free_y:
+                    return {"op": "pmove", "x": S1, "k": k, "to": S2, "how": "extend", "i": 0}
+                return {"op": "move", "x": {"u": rng.choice(free_y)["u"]}, "to": S2, "how": "extend",
+                        "i": rng.choice([0, 1]), "y": S1, "yk": k}
+            if ph == "setitem":
+                return {"op": "pmove", "x": S1, "k": k, "to": S2, "how": "setitem", "rawi": True,
+                        "i": rng.choice([-2, -1, 0, 1, 2])}
+            if ph in ("ctor", "create"):
+                uid[0] += 1
+                return {"op": "newprop", "to": S2, "name": x["p"][k]["n"], "v": [uid[0]], "how": ph, "i": 0}
+            return {"op": "prename", "x": S2, "k": rng.randrange(0, 3), "name": rng.choice([p["n"] for p in c["p"]] or ["p"])}
+        if group == "cycle":
+            tgt = rng.choice([X, {"u": x["u"], "d": [0]}, {"u": x["u"], "d": [0, 0]}, C, {"u": c["u"], "d": [0]}])
+            mover = rng.choice([X, X, X, {"u": x["u"], "up": 1}])
+            if mover is not X and lay in ("doc", "other"):
+                mover = X
+            return {"op": "move", "x": mover, "to": tgt, "i": rng.choice([0, 1, -1]),
+                    "how": ["parent", "append", "insert", "extend", "setitem"][jj % 5]}
+        what = MISUSES[jj % len(MISUSES)]
+        return {"op": "misuse", "what": what, "x": X, "to": TO, "k": rng.randrange(0, 3),
+                "y": {"u": rng.choice(free_y)["u"]} if free_y else X}
+    first = main_op()
+    ops.append(first)
+    ops.append({"op": "warm", "k": [k for k in WARM_KINDS if rng.random() < 0.3] + ["mid"]})
+    for _ in range(rng.choice([0, 0, 1, 1, 2])):
+        r = rng.random()
+        if r < 0.3:
+            ops.append(copy.deepcopy(first))              # the same call once more, on the state the refusal left
+            if ops[-1]["op"] in ("new", "clone"):
+                counter[0] += 1
+                ops[-1]["u"] = counter[0]
+        elif r < 0.45:
+            ops.append({"op": "rename", "x": X, "name": rng.choice(others)})     # ... then it is welcome
+            ops.append({"op": "move", "x": X, "to": TO, "how": rng.choice(["parent", "append", "insert"]), "i": 0})
+        elif r < 0.55:
+            ops.append({"op": "remove", "x": C, "how": rng.choice(["remove", "parent_none"])})
+            ops.append({"op": "move", "x": X, "to": TO, "how": rng.choice(["parent", "append", "extend"]), "i": 0})
+        elif r < 0.7:
+            how = REFUSE_HOWS[rng.randrange(0, len(REFUSE_HOWS))]
+            ops.append(main_op())
+        else:
+            op = hist_op2(rng, rng.choices(OP_KINDS, OP_WEIGHTS)[0], counter, uid)
+            ops += op if isinstance(op, list) else [op]
+        ops += warm_round(rng, 0.6, 0.7)
+    return {"stream": "hist", "plan": "all", "doc": doc, "ops": ops, "refuse": group}
+
+
 def sec_positions(doc):
     """All Section positions of a JSON tree in level order, with depth of the tree."""
     out = []
@@ -1321,6 +1637,9 @@ class HistImpl(Impl):
         # that drops out of the child lists but keeps its parent reference is still known (added after
         # seeded round 5, see graphcheck / two_readings)
         self.known = ({}, {})
+        # (added after seeded round 6) what a REFUSED call leaves behind, judged right after the call
+        self.refused = []
+        self.members = {}
         self.note()
         for n, op in enumerate(case.get("ops", [])):
             self.nsteps += op["op"] != "warm"
@@ -1330,6 +1649,10 @@ class HistImpl(Impl):
                 self.log.append("skip")
             except Exception as exc:          # a refused call is part of the history
                 self.log.append("raised")
+                if op["op"] != "warm" and len(self.refused) < 2:
+                    self.refused += refused_check((self.doc, self.other), self.members,
+                                                  "step %d of the history (%s, refused with %s)"
+                                                  % (self.nsteps, op["op"], type(exc).__name__))
             if op["op"] != "warm":
                 self.note()
             if op["op"] != "warm" and len(self.walk(self.doc)[1]) > MAX_HIST_SECS:
@@ -1337,7 +1660,7 @@ class HistImpl(Impl):
                 break
         self.final, secs, props, bad = self.walk(self.doc)
         # the second Document is a document as well (objects come from it and leave for it)
-        self.graph = self.graphcheck(self.other, "second Document")
+        self.graph = self.refused[:2] + self.graphcheck(self.other, "second Document")
         if bad:
             # no positions to talk about; what the property says about objects is still checked
             self.graph += self.graphcheck(self.doc, "Document")
@@ -1359,6 +1682,7 @@ class HistImpl(Impl):
 
     def note(self):
         collect([self.doc, self.other] + [self.objs[u] for u in sorted(self.objs)], *self.known)
+        self.members = firm_members((self.doc, self.other))
 
     # -- the tree as the child lists define it ---------------------------------
     @staticmethod
@@ -1669,8 +1993,64 @@ class HistImpl(Impl):
             x.type = op["t"]
         elif k == "values":
             self.nth_prop(x, op["k"]).values = list(op["v"])
+        elif k == "misuse":
+            self.misuse(op["what"], x, to, R(op["y"]), op.get("k", 0))
         else:
             raise ValueError(k)
+
+    def misuse(self, what, x, to, y, k):
+        """(added after seeded round 6) Calls with an argument of the wrong kind; x: a Section of the
+        Document, to: another holder, y: a Section `to` would accept. The library refuses (nearly) all of
+        them; what the refusal leaves behind is judged by refused_check and `mid`."""
+        prop = self.nth_prop(x, k) if len(x.properties) else None
+        if what.startswith(("prop_", "doc_", "setitem_prop", "remove_absent_prop")) and prop is None:
+            raise Skip()
+        if what == "prop_parent_doc":
+            prop.parent = self.doc
+        elif what == "prop_parent_prop":
+            prop.parent = self.nth_prop(x, k + 1)
+        elif what == "sec_parent_prop":
+            x.parent = prop if prop is not None else 5
+        elif what == "sec_parent_str":
+            x.parent = "abc"
+        elif what == "doc_append_prop":
+            self.doc.append(prop)
+        elif what == "doc_insert_prop":
+            self.doc.insert(0, prop)
+        elif what == "prop_append_doc_child":
+            self.doc.extend([y, prop])
+        elif what == "append_int":
+            to.append(5)
+        elif what == "append_str":
+            to.append(x.name)
+        elif what == "append_list":
+            to.append([y])
+        elif what == "extend_mixed":
+            to.extend([y, 5])
+        elif what == "extend_mixed_first":
+            to.extend(["abc", y])
+        elif what == "extend_int":
+            to.extend(5)
+        elif what == "extend_twice":
+            to.extend([y, y])
+        elif what == "setitem_prop_in_sections":
+            to.sections[0] = prop
+        elif what == "setitem_sec_in_properties":
+            x.properties[0] = y
+        elif what == "setitem_by_name":
+            to.sections[to.sections[0].name] = y
+        elif what == "remove_absent":
+            to.remove(y)
+        elif what == "remove_absent_prop":
+            to.remove(prop)
+        elif what == "remove_int":
+            to.remove(5)
+        elif what == "reorder_far":
+            x.reorder(99)
+        elif what == "insert_no_index":
+            to.insert(None, y)
+        else:
+            raise ValueError(what)
 
     # -- queries before / between the edits -----------------------------------------
     def warm(self, kinds):
@@ -1808,6 +2188,114 @@ def collect(roots, secs, props):
             for prop in iter(node.properties):
                 props.setdefault(id(prop), prop)
         todo += list(iter(node.sections))
+
+
+def firm_members(docs):
+    """id -> (object, Document) for every Section / Property that is OF one of the Documents under every
+    reading: reached from the Document through child lists, every step confirmed by the parent reference."""
+    out = {}
+    for doc in docs:
+        todo = [doc]
+        while todo and len(out) < 3000:
+            node = todo.pop()
+            for sec in iter(node.sections):
+                if sec.parent is node and id(sec) not in out:
+                    out[id(sec)] = (sec, doc)
+                    todo.append(sec)
+                    for prop in iter(sec.properties):
+                        if prop.parent is sec:
+                            out.setdefault(id(prop), (prop, doc))
+    return out
+
+
+def refused_check(docs, before, label):
+    """
+    (added after seeded round 6) The state a REFUSED call leaves behind. `before`: the Sections and
+    Properties that were of a Document under every reading (child list and parent reference agree all the
+    way up) right before a call of the public API that ended in an exception. A refused call is not an
+    edit: the caller gets the exception and goes on using the Document, so what was of the Document under
+    every reading still is - the weaker-reading rule of two_readings (which applies where the history gives
+    no hint which of child list and parent reference defines "of a document") does not excuse it. For
+    every such object that is afterwards of a Document by only ONE of the two - it names a parent chain
+    that ends in the Document but is in no child list there, or it sits in a child list but names another
+    parent - the first clauses of the property are evaluated as they stand: the Document's traversal
+    yields it exactly once, and its get_path(), looked up from the Document, is that very object.
+    An object that is afterwards of no Document under either reading is not judged (whether a refused
+    call may drop an object altogether is C03/C04's question), nor is one that is still (or again, in
+    another place) a child by both. On the unchanged tree child lists and parent references agree after
+    every call, accepted or refused, so the clause never fires there.
+    """
+    reach = {}
+    for doc in docs:
+        ids, todo, n = {}, [doc], 0
+        while todo and n < 5000:
+            node = todo.pop()
+            n += 1
+            for sec in iter(node.sections):
+                if id(sec) not in ids:
+                    ids[id(sec)] = node
+                    todo.append(sec)
+                    for prop in iter(sec.properties):
+                        ids.setdefault(id(prop), sec)
+        reach[id(doc)] = ids
+
+    def end_of_chain(obj):
+        node = obj
+        for _ in range(300):
+            node = getattr(node, "parent", None)
+            if node is None:
+                return None
+            for doc in docs:
+                if node is doc:
+                    return doc
+        return None
+    out = []
+    for oid in sorted(before, key=lambda i: 0 if hasattr(before[i][0], "sections") else 1):
+        obj, _doc = before[oid]
+        is_sec = hasattr(obj, "sections")
+        pdoc = end_of_chain(obj)
+        ldocs = [doc for doc in docs if oid in reach[id(doc)]]
+        if pdoc is not None and reach[id(pdoc)].get(oid) is obj.parent:
+            continue                                  # a child by both, there or elsewhere
+        if pdoc is None and not ldocs:
+            continue                                  # of no Document any more: not this property's topic
+        doc = pdoc if pdoc is not None else ldocs[0]
+        what = "Section" if is_sec else "Property"
+        how = ("names a parent chain that ends in the Document but is in no child list below it"
+               if pdoc is not None and pdoc not in ldocs else
+               "sits in a child list below the Document but names %s as its parent"
+               % ("no object" if obj.parent is None else "another object"))
+        try:
+            got = list(doc.itersections() if is_sec else doc.iterproperties())
+            count = sum(1 for g in got if g is obj)
+        except Exception as exc:
+            count = type(exc).__name__
+        path, res = "?", None
+        try:
+            path = obj.get_path()
+            res = doc.get_section_by_path(path) if is_sec else doc.get_property_by_path(path)
+        except Exception as exc:
+            res = exc
+        if count == 1 and res is obj:
+            continue
+        # names outside the quantifier excuse the path, not the traversal
+        names_ok = True
+        node = obj
+        for _ in range(300):
+            if node is None or any(node is d for d in docs):
+                break
+            names_ok = names_ok and isinstance(node.name, str) and plain(node.name)
+            node = getattr(node, "parent", None)
+        if count == 1 and not names_ok:
+            continue
+        out.append("%s: %s %r was of the Document by child list and parent reference before the call; the "
+                   "call was refused, and now it %s: the traversal from the Document yields it %s times, its "
+                   "path %r looked up from the Document gives %s"
+                   % (label, what, obj, how, count, path,
+                      "that object" if res is obj else
+                      (type(res).__name__ if isinstance(res, Exception) else "another object: %r" % (res,))))
+        break
+    return out
 
 
 def all_plain(secs):
@@ -2163,10 +2651,12 @@ class C14(fw.Check):
         "find_caseless", "find_type_as_stored", "find_related_caseless", "find_related_type_as_stored",
         "mixed_folding_counterexample",
         "set_name_keeps_distinct", "set_name_keeps_plain", "set_name_stores", "set_name_keeps_wf",
-        "paths_resolve_after_set_name", "late_fallback_counterexample"]]
+        "paths_resolve_after_set_name", "late_fallback_counterexample",
+        "set_parent_refused_keeps", "set_parent_accepted_moves", "set_parent_consistent",
+        "set_parent_keeps_distinct", "paths_resolve_after_set_parent", "contains_precheck_counterexample"]]
     trusted_base = [
         "Lean 4.33.0 kernel; axioms propext, Classical.choice, Quot.sound only (audited per theorem)",
-        "hand-written model lean/OdmlModel/Model/Path.lean, Model/PathTree.lean, Model/PathName.lean, Py/Posix.lean, "
+        "hand-written model lean/OdmlModel/Model/Path.lean, Model/PathTree.lean, Model/PathName.lean, Model/PathMove.lean, Py/Posix.lean, "
         "tied to /repo and to the real posixpath by this correspondence run",
         "Driver/*.lean JSON glue; harness/framework.py, harness/c14.py",
     ]
@@ -2460,6 +2950,14 @@ class C14(fw.Check):
                 via = (["XML", "JSON", "YAML"][(i // 6) % 3], ["string", "file"][(i // 18) % 2])
             ids = rng.random() < 0.15 and (via is None or via[1] == "string")   # odml.save refuses repeated ids
             cases.append(hist_case(rng, uid, small(), kinds, None, "all", via=via, ids=ids, wide_ops=True))
+        # ---- added after seeded round 6 (again behind the older streams) ----
+        # calls the library has to refuse (the object clashed with varied along every attribute, cycles,
+        # arguments of the wrong kind), judged right after the refusal
+        for j in range(264 * scale):
+            cases.append(refuse_case(rng, uid, j))
+        # the parent setter one call at a time, against Model/PathMove.lean
+        for j in range(180 * scale):
+            cases.append(setparent_case(rng, j))
         return cases
 
     # -- implementation ------------------------------------------------------
@@ -2487,6 +2985,8 @@ class C14(fw.Check):
             raise ValueError(f)
         if case["stream"] == "setname":
             return run_setname(case)
+        if case["stream"] == "setparent":
+            return run_setparent(case)
         if is_hist(case):
             try:
                 im = HistImpl(case)
@@ -2512,6 +3012,9 @@ class C14(fw.Check):
             return [{"op": "setname", "sibs": c["before"], "i": c["i"], "oid": c["oid"], "new": c["new"]}
                     for c in obs.get("calls", [])
                     if all(isinstance(x, str) for x in c["before"] + [c["oid"]])]
+        if case["stream"] == "setparent":
+            return [{"op": "setparent", "old": c["old"], "new": c["new"], "i": c["i"], "below": c["below"]}
+                    for c in obs.get("calls", [])]
         if case.get("oracle_only"):
             return []                         # outside the model's vocabulary: the oracle alone decides
         case = eff_case(case, obs)
@@ -2538,6 +3041,13 @@ class C14(fw.Check):
                 if got != a:
                     out.append("child %d of %s, name = %r (id %s): implementation %s, model %s"
                                % (c["i"], c["before"], c["new"], c["oid"], fw.canon(got), fw.canon(a)))
+            return out
+        if case["stream"] == "setparent":
+            out = []
+            for c, a in zip(obs.get("calls", []), answers):
+                if c["after"] != a:
+                    out.append("entry %d of %s, parent = the holder of %s (below=%s): implementation %s, model %s"
+                               % (c["i"], c["old"], c["new"], c["below"], fw.canon(c["after"]), fw.canon(a)))
             return out
         if is_hist(case):
             case = eff_case(case, obs)
@@ -2590,6 +3100,12 @@ class C14(fw.Check):
                 out.append("after the assignments the traversal of the parent yields the children %s of %d"
                            % (obs["seen"], obs["n"]))
             return out
+        if case["stream"] == "setparent":
+            # independent of the model, and only what C14 says: whatever the calls did (refused or carried
+            # out), every Section / Property that was of a Document is found by its path and by the traversal
+            return ["after the calls %s object %d of %d %s" % (
+                [(c["i"], c["old"], c["new"], "refused" if c["raised"] else "done") for c in obs.get("calls", [])],
+                k, obs["n"], why) for k, why in obs.get("lost", [])]
         out = []
         if is_hist(case):
             out += obs.get("mid", [])        # the property at intermediate states of the history
@@ -2743,6 +3259,8 @@ class C14(fw.Check):
         if case["stream"] == "setname":
             return ("setname:" + case["kind"], any(not c["raised"] and c["after"] != c["before"]
                                                     for c in obs.get("calls", [])))
+        if case["stream"] == "setparent":
+            return ("setparent:" + case["kind"], any(c["raised"] for c in obs.get("calls", [])))
         case0, case = case, eff_case(case, obs)
         if case is None:
             return (case0["stream"] + ":skipped", False)
